@@ -121,7 +121,7 @@ static SPECS: &[PropertySpec] = &[
         thorough_runs: 50_000_000,
         real_components: REAL,
         stubbed_components: STUB,
-        assumptions: &["callers never set Host/Connection/Content-Length/Transfer-Encoding/Accept-Encoding themselves", "bearer tokens contain no control characters", "part order of multipart bodies is not demanded"],
+        assumptions: &["callers may set Host/Connection/Content-Length/Transfer-Encoding/Content-Type themselves: the library's own values must win where it owns the field", "bearer tokens contain no control characters", "part order of multipart bodies is not demanded"],
     },
     PropertySpec {
         id: "C08",
@@ -199,10 +199,10 @@ static SPECS: &[PropertySpec] = &[
         id: "C14",
         scenario: props::c14::scenario,
         level: "exploration",
-        rule: "the full matrix {chain to added root, self-signed, unknown issuer, expired} x {name matches, differs} x accept_invalid_certs x accept_invalid_hostnames x root {none, the fixtures' CA, an unrelated CA after another session that added the fixtures' CA completed a handshake with the same flags} x {direct, via CONNECT, https proxy} x flag placed on {session, request, sibling request, request overriding a session that waives both checks} = 1152 cells, walked completely by run index (exhaustive for the matrix; each cell repeated under different scheduler/aux seeds); peers are rustls ServerConnection state machines driven by the kernel; the client handshake runs over the library's own BaseStream; distinct = matrix cell; every cell non-trivial",
-        quick_runs: 3840,
+        rule: "the full matrix {chain to added root, self-signed, unknown issuer, expired} x {name matches, differs} x accept_invalid_certs x accept_invalid_hostnames x root {none, the fixtures' CA, an unrelated CA after another session that added the fixtures' CA completed a handshake with the same flags} x {direct, via CONNECT, https proxy} x flag placed on {session, request, sibling request (prepared only), request overriding a session that waives both checks, session configured twice, sibling request that is sent first, request sent after a strict sibling} = 2688 cells, walked completely by run index (exhaustive for the matrix; each cell repeated under different scheduler/aux seeds); peers are rustls ServerConnection state machines driven by the kernel; the client handshake runs over the library's own BaseStream; distinct = matrix cell; every cell non-trivial",
+        quick_runs: 5376,
         matrix_cells: props::c14::CELLS,
-        thorough_runs: 1152 * 120,
+        thorough_runs: 2688 * 60,
         real_components: TLS_REAL,
         stubbed_components: STUB,
         assumptions: &["certificate validity is judged against the real wall clock by the TLS library; fixtures are valid 2020-2120 or expired since 2001 so the outcome does not depend on the date", "this build exercises one TLS back end (see evidence 'extra.backend'); the other back end is a second build of the same check", "no schedule or fault dimension: the matrix is finite and enumerated"],
